@@ -2,6 +2,7 @@ import KoordVerif.Model.C20
 import KoordVerif.Proofs.C20ExtHist
 import KoordVerif.Proofs.C20ExtHistQ
 import KoordVerif.Proofs.C20ExtRace
+import KoordVerif.Proofs.C20ExtWire
 /-
 C20 — property theorems (DESIGN.md §4 C20) over the executable model `Model/C20.lean`.
 
@@ -888,5 +889,67 @@ example : (rrun hxD hxParse (QWorld.init hxD)
       [.q (.ev (.cmCreate [0, 1])), .q (.ev (.nodeAdd 1 [(1, 2)])), .q (.reco 1), .restartLate, .q (.reco 1), .cmLate]).w.slos 1).map
         (fun spec => get (spec.getD 3 []) [28]) = some (some 5) := by decide
 
+
+/-! ## WIRING (round-5 extension, Model/C20Wire.lean): the predicates SetupWithManager puts on the ConfigMap watch -/
+
+/-- the pinned wiring (no predicate on the ConfigMap watch; tie_watch_registrations) and, more generally, every watch predicate
+    that lets all Creates and all Data-changing Updates through, is INVISIBLE: the wired controller is exactly the queue model,
+    over all interleavings — so every delivery theorem above holds for the controller as SetupWithManager wires it. -/
+theorem wired_run_eq_queue_model (pr : WatchPred) (hs : pr.Sound) (d : Defaults) (parse : Ident → CM) (ss : List QStep) :
+    wrun pr d parse (QWorld.init d) ss = qrun d parse (QWorld.init d) ss :=
+  wrun_sound pr hs d parse ss _
+
+/-- … in particular: at quiescence every NodeSLO is the spec recomputed from a cache that tracks the LATEST ConfigMap. -/
+theorem wired_quiescent_delivery_tracks_latest (pr : WatchPred) (hs : pr.Sound) (d : Defaults) (parse : Ident → CM)
+    (ss : List QStep) (i : Ident)
+    (hq : (wrun pr d parse (QWorld.init d) ss).q = [])
+    (ha : (wrun pr d parse (QWorld.init d) ss).w.avail = true)
+    (hcm : (wrun pr d parse (QWorld.init d) ss).w.cm = some i) :
+    Inv (wrun pr d parse (QWorld.init d) ss).w ∧ Tracks d (wrun pr d parse (QWorld.init d) ss).w.cfg (parse i) := by
+  rw [wired_run_eq_queue_model pr hs] at *
+  exact ⟨quiescent_delivery_over_interleavings d parse ss hq, cache_tracks_latest_data_interleaved d parse ss i ha hcm⟩
+
+theorem wired_pinned_predicate_sound : WatchPred.none.Sound := none_sound
+
+/-- predicate.GenerationChangedPredicate{} on the ConfigMap watch breaks it (a ConfigMap's generation never changes, so
+    every Update is dropped before the handler): ConfigMap text 1 is created, then updated to text 0 (system section
+    removed); the cache is available, nothing is queued — and it still holds text 1. -/
+theorem wired_generation_predicate_counterexample :
+    ¬ (∀ (d : Defaults) (parse : Ident → CM) (ss : List QStep) (i : Ident),
+        (wrun .generationChanged d parse (QWorld.init d) ss).w.avail = true →
+        (wrun .generationChanged d parse (QWorld.init d) ss).w.cm = some i →
+        Tracks d (wrun .generationChanged d parse (QWorld.init d) ss).w.cfg (parse i)) := by
+  intro h
+  have ht := h hxD hxParse [.ev (.cmCreate [0, 1]), .ev (.cmUpdate [0, 0])] [0, 0] (by decide) (by decide)
+  exact absurd (ht.2.2.2.1 (by decide)) (by decide)
+
+/-- … and the stale value reaches the node: node 1 (la=x) keeps the removed entry's 160 at quiescence, where the same
+    history without the predicate delivers the default (unset). -/
+theorem wired_generation_predicate_stale_nodeslo :
+    let ss : List QStep := [.ev (.cmCreate [0, 1]), .ev (.nodeAdd 1 [(1, 1)]), .reco 1, .ev (.cmUpdate [0, 0]), .reco 1]
+    (wrun .generationChanged hxD hxParse (QWorld.init hxD) ss).q = [] ∧
+    (lookupA (wrun .generationChanged hxD hxParse (QWorld.init hxD) ss).w.slos 1).map (fun spec => get (spec.getD 3 []) [27])
+      = some (some 160) ∧
+    (lookupA (wrun .none hxD hxParse (QWorld.init hxD) ss).w.slos 1).map (fun spec => get (spec.getD 3 []) [27])
+      = some none := by decide
+
+/-! ## ORDER of the node entries (profile names are not part of the model: selection cannot depend on them) -/
+
+/-- re-ordering a section's entries (e.g. sorting them by profile name) cannot change what a node gets as long as at most
+    one entry matches the node's labels … -/
+theorem selectNode_perm_of_unique_match (ls : Labels) (c : SecCfg) (ns' : List (Sel × Flat)) (hp : ns'.Perm c.nodes)
+    (hu : ∀ a ∈ c.nodes, ∀ b ∈ c.nodes, a.1.matches ls = true → b.1.matches ls = true → a = b) :
+    selectNode ls { c with nodes := ns' } = selectNode ls c := by
+  simp only [selectNode]
+  rw [find?_perm_of_unique (fun e : Sel × Flat => e.1.matches ls) c.nodes ns' hp hu]
+
+/-- … and DOES change it when two entries overlap: the statement's "first matching entry" is about document order. -/
+theorem selectNode_order_matters_counterexample :
+    ¬ (∀ (ls : Labels) (c : SecCfg) (ns' : List (Sel × Flat)), ns'.Perm c.nodes →
+        selectNode ls { c with nodes := ns' } = selectNode ls c) := by
+  intro h
+  have := h [(1, 1)] { cluster := [], nodes := [(.reqs [], [([5], 1)]), (.reqs [⟨1, 0, [1]⟩], [([5], 2)])] }
+    [(.reqs [⟨1, 0, [1]⟩], [([5], 2)]), (.reqs [], [([5], 1)])] (List.Perm.swap _ _ _)
+  exact absurd this (by decide)
 
 end KoordVerif.C20
